@@ -158,6 +158,36 @@ def escape_kinds(f: Func, allowed: set[str], str_params: set[str], safe_funcs: s
     return {(s[1], s[2]) for s in out.exc}, n_guarded + sem.helper_guarded
 
 
+SAFE_EXC_ATTRS = {"args", "message", "get_context", "line", "column", "pos_in_stream", "__class__", "__str__", "with_traceback", "__cause__", "__context__", "__traceback__"}
+
+
+def r_handler_attrs(ck: Checker, entries: list[tuple[str, str, set[str], set[str]]], rule: str = "R-EXC-ESCAPE") -> None:
+    """Inside a handler the caught exception is only asked for what *every* exception of the handled type has: an attribute that only
+    some subclasses carry (UnexpectedToken.expected, UnexpectedCharacters.allowed ...) raises AttributeError inside the handler, and that
+    error escapes instead of the definition error."""
+    for modname, q, _allowed, _strp in entries:
+        f = ck.repo.func(modname, q)
+        what = f"{q}: handlers read only attributes every caught exception has"
+        bad = None
+        for t in [x for x in ast.walk(f.raw or f.node) if isinstance(x, ast.Try)]:
+            for h in t.handlers:
+                if not h.name:
+                    continue
+                typ = dotted(h.type) if h.type is not None and not isinstance(h.type, ast.Tuple) else None
+                for x in ast.walk(ast.Module(body=h.body, type_ignores=[])):
+                    if isinstance(x, ast.Attribute) and isinstance(x.value, ast.Name) and x.value.id == h.name and x.attr not in SAFE_EXC_ATTRS:
+                        under_try = any(isinstance(y, ast.Try) and any(x is z for b_ in y.body for z in ast.walk(b_)) for y in ast.walk(ast.Module(body=h.body, type_ignores=[])))
+                        guarded = any(isinstance(y, ast.Call) and dotted(y.func) in ("hasattr", "getattr", "isinstance") and y.args and norm(y.args[0]) == h.name
+                                      for y in ast.walk(ast.Module(body=h.body, type_ignores=[])))
+                        if not under_try and not guarded:
+                            bad = (x, f"{q}: the handler for {typ or 'the caught exception'} reads {h.name}.{x.attr}, which not every such exception has "
+                                   "(AttributeError is raised inside the handler and escapes)")
+        if bad:
+            ck.violation(rule, f, bad[0], what, positive=True, construct=bad[1])
+        else:
+            ck.holds(rule, f, f.node, what)
+
+
 def r_exc_escape(ck: Checker, entries: list[tuple[str, str, set[str], set[str]]], rule: str = "R-EXC-ESCAPE", min_guarded: int = 5) -> None:
     safe: set[str] = set()
     total_guarded = 0
@@ -569,6 +599,7 @@ def run(ck: Checker) -> None:
     ck.assumptions += ["lark raises only UnexpectedInput subclasses or other Exception subclasses from parse()",
                        "str methods on the str argument and dict operations keyed by it do not raise"]
     ck.guard("R-EXC-ESCAPE", lambda: r_exc_escape(ck, ENTRIES))
+    ck.guard("R-EXC-ESCAPE", lambda: r_handler_attrs(ck, ENTRIES))
     ck.guard("R-ENTRY-SIBLING", lambda: r_entry_sibling(ck))
     ck.guard("R-GRAM-EXH", lambda: r_gram_exh(ck))
     ck.guard("R-VAR-ORDER", lambda: r_var_order(ck))
